@@ -135,6 +135,7 @@ EvFindings(s, e) ==
     [] e.ev = "Deadline" -> F(s.stopAsked /\ ~e.stopret, "C16", "Stop() has not returned although nothing but the clock was needed")
     [] e.ev = "RecvNone" -> F(Halted(s), "C16", "output is not closed after Stop returned / cancellation took effect")
     [] e.ev = "RecvClosed" -> F(~Halted(s) /\ s.lastId # s.nW, "C03", "output closed but written elements were never delivered (lost tail)")
+                           \o F(~Halted(s) /\ IsUnite(s) /\ s.lastId # s.nW, "C11", "a non-empty input slice appears in no output slice (output closed without it)")
     [] e.ev = "GiveUp" -> F(~Halted(s) /\ s.lastId # s.nW, "C03", "input closed and output drained, yet written elements are never delivered")
     [] OTHER -> <<>>
 
